@@ -29,8 +29,8 @@ import traceback
 
 VERIF = os.path.dirname(os.path.dirname(os.path.abspath(__file__)))
 TDDA_SRC = os.path.abspath(os.environ.get('TDDA_SRC', '/repo'))
-EVIDENCE_DIR = os.path.join(VERIF, 'evidence')
-REPLAY_DIR = os.path.join(VERIF, 'replays')
+EVIDENCE_DIR = os.environ.get('VERIF_EVIDENCE_DIR') or os.path.join(VERIF, 'evidence')
+REPLAY_DIR = os.environ.get('VERIF_REPLAY_DIR') or os.path.join(VERIF, 'replays')
 KNOWN_FINDINGS = os.path.join(VERIF, 'known_findings.json')
 EVIDENCE_SCHEMA = '/root/.vp/EVIDENCE.schema.json'
 PYTHON = sys.executable
